@@ -1,5 +1,5 @@
 (* C26 — proofs. *)
-From Coq Require Import ZArith List Bool Lia.
+From Coq Require Import ZArith NArith List Bool Lia.
 From PV Require Import C26.Generated C26.Spec C26.Model.
 Import ListNotations.
 Open Scope Z_scope.
@@ -124,34 +124,42 @@ Qed.
 
 (* ------------------------------------------------------------------ the access path *)
 
+(* a non-empty user password -- whatever its bytes, blanks included -- counts as supplied credentials *)
+Lemma supplied_of_nonempty_upw : forall opw upw, upw <> [] -> noCredentialsSupplied opw upw = false.
+Proof.
+  intros opw upw Hne. unfold noCredentialsSupplied, pw_empty.
+  destruct upw as [|b tl]; [contradiction|]. apply andb_false_r.
+Qed.
+
 Lemma user_password_access : forall mode e m, In (mode, (e, m)) perm_table ->
-  forall opwEmpty P R,
-  checkForEncryption true false true true opwEmpty false mode P R =
+  forall opw upw P R, upw <> [] ->
+  checkForEncryption true false true true opw upw mode P R =
     if rejectsEncrypted mode then EncryptedUnsupported
     else if needsOwnerAndUserPassword mode then OwnerRequired
     else if refuses e m P R then Denied else Proceed.
 Proof.
-  intros mode e m Hin opwEmpty P R.
+  intros mode e m Hin opw upw P R Hne.
   unfold checkForEncryption, setupAccess, handlePermissions. cbn [negb andb].
   rewrite (hasNeeded_of_row mode e m P R (perm_lookup_row _ _ _ Hin)).
+  rewrite (supplied_of_nonempty_upw opw upw Hne).
   destruct (rejectsEncrypted mode); [reflexivity|].
   destruct (needsOwnerAndUserPassword mode); cbn [negb andb]; [reflexivity|].
-  rewrite andb_false_r. rewrite negb_involutive. reflexivity.
+  rewrite negb_involutive. reflexivity.
 Qed.
 
 Lemma user_password_access_no_row : forall mode, perm_lookup perm_table mode = None ->
-  forall opwEmpty P R,
-  checkForEncryption true false true true opwEmpty false mode P R =
+  forall opw upw P R, upw <> [] ->
+  checkForEncryption true false true true opw upw mode P R =
     if rejectsEncrypted mode then EncryptedUnsupported
     else if needsOwnerAndUserPassword mode then OwnerRequired
     else Proceed.
 Proof.
-  intros mode Hl opwEmpty P R.
+  intros mode Hl opw upw P R Hne.
   unfold checkForEncryption, setupAccess, handlePermissions. cbn [negb andb].
   rewrite (hasNeeded_no_row mode P R Hl).
+  rewrite (supplied_of_nonempty_upw opw upw Hne).
   destruct (rejectsEncrypted mode); [reflexivity|].
-  destruct (needsOwnerAndUserPassword mode); cbn [negb andb]; [reflexivity|].
-  rewrite andb_false_r. reflexivity.
+  destruct (needsOwnerAndUserPassword mode); cbn [negb andb]; reflexivity.
 Qed.
 
 (* commands that insist on both passwords have no permission requirement in the table *)
@@ -173,30 +181,30 @@ Proof.
   - apply hasNeeded_no_row. exact Hl.
 Qed.
 
-Lemma owner_never_denied : forall encrypted userOK permsOK opwEmpty upwEmpty mode P R,
-  checkForEncryption encrypted true userOK permsOK opwEmpty upwEmpty mode P R <> Denied.
+Lemma owner_never_denied : forall encrypted userOK permsOK opw upw mode P R,
+  checkForEncryption encrypted true userOK permsOK opw upw mode P R <> Denied.
 Proof.
-  intros encrypted userOK permsOK opwEmpty upwEmpty mode P R.
+  intros encrypted userOK permsOK opw upw mode P R.
   unfold checkForEncryption, handleUnencryptedFile, setupAccess, handlePermissions. cbn [negb andb].
   destruct encrypted; cbn [negb].
   - destruct (rejectsEncrypted mode); [discriminate|].
     destruct (needsOwnerAndUserPassword mode) eqn:Hnb; cbn [negb].
     + rewrite (needsBoth_hasNeeded mode P R Hnb).
-      destruct userOK, permsOK, (opwEmpty && upwEmpty); discriminate.
+      destruct userOK, permsOK, (noCredentialsSupplied opw upw); discriminate.
     + destruct permsOK; discriminate.
   - destruct ((mode =? CM_DECRYPT) || (mode =? CM_SETPERMISSIONS)); [discriminate|].
     destruct (mode =? CM_ENCRYPT); cbn [negb]; [|discriminate].
-    destruct opwEmpty; discriminate.
+    destruct (pw_empty opw); discriminate.
 Qed.
 
-Lemma unencrypted_never_denied : forall ownerOK userOK permsOK opwEmpty upwEmpty mode P R,
-  checkForEncryption false ownerOK userOK permsOK opwEmpty upwEmpty mode P R <> Denied.
+Lemma unencrypted_never_denied : forall ownerOK userOK permsOK opw upw mode P R,
+  checkForEncryption false ownerOK userOK permsOK opw upw mode P R <> Denied.
 Proof.
-  intros ownerOK userOK permsOK opwEmpty upwEmpty mode P R.
+  intros ownerOK userOK permsOK opw upw mode P R.
   unfold checkForEncryption, handleUnencryptedFile. cbn [negb].
   destruct ((mode =? CM_DECRYPT) || (mode =? CM_SETPERMISSIONS)); [discriminate|].
   destruct (mode =? CM_ENCRYPT); cbn [negb]; [|discriminate].
-  destruct opwEmpty; discriminate.
+  destruct (pw_empty opw); discriminate.
 Qed.
 
 (* ------------------------------------------------------------------ coverage of the table *)
@@ -233,13 +241,13 @@ Proof. vm_compute. reflexivity. Qed.
 
 (* consequence: a classified command that the specification says must be refused does not proceed *)
 Lemma classified_refuses : forall m, classified_ok m = true ->
-  forall opwEmpty P R, spec_must_refuse (spec_kind m) P R = true ->
-  checkForEncryption true false true true opwEmpty false m P R <> Proceed.
+  forall opw upw P R, upw <> [] -> spec_must_refuse (spec_kind m) P R = true ->
+  checkForEncryption true false true true opw upw m P R <> Proceed.
 Proof.
-  intros m Hc opwEmpty P R Hmust.
+  intros m Hc opw upw P R Hne Hmust.
   unfold classified_ok in Hc. apply orb_true_iff in Hc.
   destruct (perm_lookup perm_table m) as [[e mo]|] eqn:Hl.
-  - rewrite (user_password_access m e mo (In_of_lookup _ _ _ Hl)).
+  - rewrite (user_password_access m e mo (In_of_lookup _ _ _ Hl) opw upw P R Hne).
     destruct (rejectsEncrypted m); [discriminate|].
     destruct (needsOwnerAndUserPassword m); [discriminate|].
     destruct Hc as [Hc|Hc]; [|discriminate].
@@ -249,15 +257,15 @@ Proof.
     + rewrite Hc, Hmust. rewrite orb_true_r. discriminate.
     + apply andb_true_iff in Hmust. destruct Hmust as [Hx Hy]. rewrite Hx, Hy.
       rewrite !andb_true_r. rewrite Hc. discriminate.
-  - rewrite (user_password_access_no_row m Hl).
+  - rewrite (user_password_access_no_row m Hl opw upw P R Hne).
     destruct (rejectsEncrypted m); [discriminate|].
     destruct Hc as [Hc|Hc]; [|discriminate].
     destruct (spec_kind m); cbn in Hc, Hmust; discriminate.
 Qed.
 
 Lemma spec_refusal_partial : forall m, In m all_modes -> ~ In m known_unclassified ->
-  forall opwEmpty P R, spec_must_refuse (spec_kind m) P R = true ->
-  checkForEncryption true false true true opwEmpty false m P R <> Proceed.
+  forall opw upw P R, upw <> [] -> spec_must_refuse (spec_kind m) P R = true ->
+  checkForEncryption true false true true opw upw m P R <> Proceed.
 Proof.
   intros m Hin Hnot. destruct (every_mode_classified_partial m Hin) as [H|H].
   - contradiction.
